@@ -30,9 +30,3 @@ Definition known_C05_neg_feed (P : list rule) : bool :=
   existsb (fun r1 => has_neg r1 &&
                      existsb (fun c => existsb (fun r2 => existsb (atom_compat c) (prem r2 ++ negp r2)) P) (concl r1)) P.
 
-(* C05-filter-var-order-ignored: evaluate_filters lets `?x < ?y` (any operator other than = and != between two
-   bound variables) pass.  Class: the program has such a filter. *)
-Definition is_eqne (op : cmp) : bool := match op with Eq | Ne => true | _ => false end.
-Definition filter_supported (f : fcond) : bool := match f with FVar _ op _ => is_eqne op | FNum _ _ _ => true end.
-Definition known_C05_varcmp (P : list rule) : bool :=
-  existsb (fun r => existsb (fun f => negb (filter_supported f)) (filt r)) P.
